@@ -8,19 +8,27 @@ PROC_NOTE = ("Model Processor.v is hand-written and tied to the code by differen
 
 CLAIMS = {
  "C01": ("Coq theorems over every finite history of the processor model: conservation of tagged data (held + in flight + "
-         "acknowledged + given up = accepted, with multiplicities), exactly-once (NoDup) under distinct tags, nothing invented; "
+         "acknowledged + given up = accepted, with multiplicities), exactly-once (NoDup) under distinct tags, nothing invented, with an accepting collector data is only ever given up for "
+         "capacity / package overwrite and the final flush delivers everything a live run holds; "
          "monitors (no duplicate acknowledgement, provenance, completeness for an accepting collector) on the real processor's outputs.",
          "§4 C01", PROC_NOTE, "Coq proof by induction over operation histories (ghost multiset invariant) + differential correspondence + monitors"),
  "C02": ("Coq theorems: no tag acknowledged twice, acknowledged/given-up data is released, a failed payload's tags are conserved "
-         "between harvest / refused / given up; attempt counters proved in the container models (C06/C07 lemmas); monitors for "
-         "re-sending of dead data and the 1+5 / 1+10 attempt bounds on long failure scripts against the real processor.",
+         "between harvest / refused / given up; a failed request is carried over iff status retryable && category retryable && "
+         "attempts left (C02_save_iff; retryable statuses are exactly 408/429/500/503, Status.v, swept over every status code "
+         "through the real HTTP client); a metric tag occurs in at most 6 requests, an event tag in at most 11 when deliveries do "
+         "not overlap (both provisos shown necessary by refutation witnesses); monitors for re-sending of dead data and the "
+         "1+5 / 1+10 attempt bounds on long failure scripts, incl. split payloads of >= 5000 events, against the real processor.",
          "§4 C02", PROC_NOTE, "Coq proof (invariants over histories) + differential correspondence + monitors"),
  "C03": ("Coq theorems on the processor model (RunIDValid iff the run is held; the state reported is the state held) plus "
          "lifecycle monitors (terminal verdicts, sound 'connected', retry after back-off, restart after 401/409) evaluated on the "
          "real processor over histories with every connect outcome at both stages, overlapping attempts, back-off and inactivity.",
          "§4 C03", PROC_NOTE + " The terminal-state invariant is currently checked by the monitors and the correspondence, its Coq proof is in progress.",
          "Coq proof + differential correspondence + lifecycle monitors"),
- "C04": ("Coq theorem (data under an unheld run id is ignored) and monitors on the real processor: every request carries the "
+ "C04": ("Coq theorems for every history: every emitted request carries only tags submitted under its own run id while that run "
+         "was held (data at rest, in flight and in every request, final flush included), and the owner key / host / headers / run id "
+         "captured from the run's own application object; data under an unheld run id is ignored; owner-level isolation under the "
+         "assumption that the collector does not re-issue a live run id (refutation witness otherwise); the application key is the "
+         "nine identity fields. Monitors on the real processor: every request carries the "
          "owning application's license / agent identification and one of its own collector hosts / header sets, and only data "
          "submitted under that run id; multi-tenant histories with restarts, stale and foreign ids. AppKey collision "
          "(policy hash) is a listed known finding with a Coq witness.",
@@ -46,7 +54,8 @@ CLAIMS = {
          "§4 C09", "reads never return data together with an error; writes succeed.",
          "Coq proof by induction over messages and chunkings + differential correspondence"),
  "C11": ("Coq theorems: the final flush is total (no blocked state), reports the exit, is final (later operations are no-ops), "
-         "empties every flushed run and conserves its data whatever the outcomes of the final requests; real CleanExit under a "
+         "empties every flushed run, sends exactly the harvest's data in requests of that run (C11_flush_complete) and conserves it "
+         "whatever the outcomes of the final requests; real CleanExit under a "
          "watchdog with every outcome assignment and requests still in flight.",
          "§4 C11", PROC_NOTE + " Real-time bound depends on the HTTP client time-out (modelled as the reply always arriving).",
          "Coq proof + differential correspondence + hang monitor"),
